@@ -62,6 +62,14 @@ def chosen(rnd, tier):
     for k, oth in enumerate(([b'SSH-server maintenance at 5pm'], [b'SSH-2.0x legacy gateway'], [b'SSH-22.0-NotABanner', b'hello'], [b'SSH-2.0_underscore'],
                              [b'SSH-', b'SSH-2', b'SSH-2.'], [b'SSH-x.y-z', b'ssh-2.0-lowercase'])):
         cases.append({'others': [list(o) for o in oth], 'parts': {'major': 2, 'minor': 0, 'software': list(b'OpenSSH_9.%d' % k), 'comments': list(b'')}, 'eol': 'crlf' if k % 2 else 'lf'})
+    # look-alikes of the version part (something else than a dot between the two numbers), and long runs of other lines: any number of
+    # them may precede the identification string
+    for k, oth in enumerate(([b'SSH-2x0-Decoy_1.0'], [b'SSH-200-service ready'], [b'SSH-2-0-compatible gateway, please wait'], [b'SSH-1,5-legacy'], [b'SSH-2 0-relay', b'SSH-2:0-x'])):
+        cases.append({'others': [list(o) for o in oth], 'parts': {'major': 2, 'minor': 0, 'software': list(b'OpenSSH_8.%d' % k), 'comments': list(b'')}, 'eol': 'crlf' if k % 2 else 'lf'})
+    for k, n_lines in enumerate((31, 32, 33, 48, 200)):
+        # (short lines: the whole exchange stays below the 2048 bytes of one recv(); what happens to lines cut by a segment boundary is C09's finding)
+        cases.append({'others': [list(b'n%d' % (i + 1)) for i in range(n_lines)],
+                      'parts': {'major': 2, 'minor': 0, 'software': list(b'dropbear_2020.8%d' % k), 'comments': list(b'')}, 'eol': 'crlf'})
     # control characters that text-level whitespace stripping would swallow (0x1c..0x1f) at the very end of the identification string: they
     # are part of the line, shown as '?' and make the banner non-conforming like anywhere else
     for k, ctl in enumerate((0x1c, 0x1d, 0x1e, 0x1f)):
